@@ -116,13 +116,13 @@ Theorem PEXEC_project_step_refines : forall q ops gb t u,
   px_project q ops gb t = Some u -> refines u (sem_project fl_pandas ops gb t) /\ width_ok u.
 Proof. exact px_project_refines. Qed.
 Print Assumptions PEXEC_project_step_refines.
-(* natural_join: suffix, scratch key for an empty `on` (also CROSS), merge, coalescing loop, dropped scratch columns *)
+(* natural_join: suffix, scratch key for an empty `on` (also CROSS), the null-key marker (since /repo af27aca null keys match
+   nothing), merge, the coalescing loop over every suffixed copy merge produced (since 756a9c2), dropped scratch columns *)
 Theorem PEXEC_join_step_refines : forall declared on_a on_b jt l r x,
   width_ok l -> width_ok r ->
   (forall c, In c on_a -> In c (cols l)) -> (forall c, In c on_b -> In c (cols r)) -> List.length on_a = List.length on_b ->
-  (forall a b, In (a, b) (combine on_a on_b) -> In a (cols r) -> a = b) ->
   (forall c, In c declared <-> In c (cols l ++ filter (fun c => negb (mem c (cols l))) (cols r))) ->
-  px_join declared on_a on_b jt l r = Some x -> refines x (sem_join true on_a on_b jt l r) /\ width_ok x.
+  px_join declared on_a on_b jt l r = Some x -> refines x (sem_join false on_a on_b jt l r) /\ width_ok x.
 Proof. exact px_join_refines. Qed.
 Print Assumptions PEXEC_join_step_refines.
 
@@ -133,13 +133,6 @@ Theorem PEXEC_no_scratch_column_survives : forall (srt : sorter) (q : pquirks) (
   (forall c, In c (cols t) <-> In c (column_names p)) /\ width_ok t.
 Proof. exact (fun srt q p e t So W H => pexec_shape srt q p So e t W H). Qed.
 Print Assumptions PEXEC_no_scratch_column_survives.
-(* the premise join_keys_clean inside wf_op_b is needed: a left key that is also a non-key column of the right table, paired with a
-   differently named right key, leaves `<key>_tmp_right_col` in the result (listed finding C16-pandas-overlap-leftover-column) *)
-Theorem PEXEC_scratch_column_survives_refuted :
-  exists p e t, pexec q_code p e = Some t /\ ~ (forall c, In c (cols t) <-> In c (column_names p)).
-Proof. exact scratch_column_survives_refuted. Qed.
-Print Assumptions PEXEC_scratch_column_survives_refuted.
-
 (* ---------------------------------------------------------------- the chosen scratch names never capture a user column *)
 (* since /repo c06ea4b: _unused_column_name returns none of the names in use, the join suffix makes no suffixed shared name a name in
    use; consequently the scratch columns of the three steps are new names (and the stand-ins for constants too) *)
@@ -161,7 +154,8 @@ Theorem PEXEC_scratch_names_never_capture :
      let names := set_union (cols left) (cols right) in
      let common := set_inter (cols left) (cols right) in
      (forall c, In c common -> ~ In (sapp c (right_suffix common names)) (cols left) /\ ~ In (sapp c (right_suffix common names)) (cols right)) /\
-     ~ In (unused_column_name base_merge_col names) (cols left) /\ ~ In (unused_column_name base_merge_col names) (cols right)).
+     (~ In (unused_column_name base_merge_col names) (cols left) /\ ~ In (unused_column_name base_merge_col names) (cols right)) /\
+     (~ In (unused_column_name base_null_key names) (cols left) /\ ~ In (unused_column_name base_null_key names) (cols right))).
 Proof.
   exact (conj unused_column_name_fresh (conj right_suffix_fresh (conj extend_scratch_fresh (conj wcollect_fresh
         (conj project_scratch_fresh (conj pcollect_fresh join_scratch_fresh)))))).
@@ -172,12 +166,13 @@ Print Assumptions PEXEC_scratch_names_never_capture.
 Theorem PEXEC_join_coalesce : forall declared on_a on_b jt l r x,
   width_ok l -> width_ok r ->
   (forall c, In c on_a -> In c (cols l)) -> (forall c, In c on_b -> In c (cols r)) -> List.length on_a = List.length on_b ->
-  (forall a b, In (a, b) (combine on_a on_b) -> In a (cols r) -> a = b) ->
   (forall c, In c declared <-> In c (cols l ++ filter (fun c => negb (mem c (cols l))) (cols r))) ->
   px_join declared on_a on_b jt l r = Some x ->
   forall row, In row (rows x) ->
-    exists p, In p (sem_pairs (key_of (cols l) on_a) (key_of (cols r) on_b) (how_of jt) (rows l) (rows r)) /\
+    exists p, In p (sem_pairs (join_match false (cols l) (cols r) on_a on_b) (how_of jt) (rows l) (rows r)) /\
               (forall ra, fst p = Some ra -> In ra (rows l)) /\ (forall rb, snd p = Some rb -> In rb (rows r)) /\
+              (forall ra rb, fst p = Some ra -> snd p = Some rb ->
+                 keys_match false (key_of (cols l) on_a ra) (key_of (cols r) on_b rb) = true) /\
               forall c, In c (cols l) \/ In c (cols r) ->
                 get (cols x) row c
                 = (let va := match fst p with Some r0 => if mem c (cols l) then get (cols l) r0 c else VNull | None => VNull end in
@@ -207,13 +202,28 @@ Theorem PEXEC_window_order_premise_refuted :
                    pexec q_code p e = Some t /\ sem_gen fl_pandas p e = Some t' /\ ~ refines t t'.
 Proof. exact window_premise_refuted. Qed.
 Print Assumptions PEXEC_window_order_premise_refuted.
-(* a finding about the CODE: the executor raises where the semantics is defined (every group key of a project contains a null);
-   with table_is_keyed_by_columns grouping with dropna=False it returns the reference table *)
-Theorem PEXEC_project_keyed_check_raises_refuted :
+(* a finding about the CODE, fixed by /repo db5bdc2: with table_is_keyed_by_columns grouping with pandas' default dropna=True the
+   executor raised where the semantics is defined (every group key of a project contains a null); with dropna=False (the code now)
+   it returns the reference table *)
+Theorem PEXEC_project_keyed_check_history_refuted :
   exists p e t', wf_op_b p = true /\ perm_guard_b fl_pandas p e = true /\ sem_gen fl_pandas p e = Some t' /\
-                 pexec q_code p e = None /\ pexec (mkq false) p e = Some t'.
+                 pexec q_before_db5bdc2 p e = None /\ pexec q_code p e = Some t'.
 Proof. exact project_keyed_check_refuted. Qed.
-Print Assumptions PEXEC_project_keyed_check_raises_refuted.
+Print Assumptions PEXEC_project_keyed_check_history_refuted.
+
+(* the two join repairs in /repo (756a9c2: every suffixed copy is folded back; af27aca: null keys match nothing) as executed by the
+   transcription: the former finding C16-pandas-overlap-leftover-column is gone, and a FULL join of tables that both have a null
+   key keeps those rows apart *)
+Example PEXEC_join_overlap_now_clean :
+  wf_op_b ex_overlap = true /\
+  pexec q_code ex_overlap ex_overlap_env = Some (mktable ["p"; "a"; "q"; "b"] [[n 1; n 10; n 1; n 5]]) /\
+  sem_gen fl_pandas ex_overlap ex_overlap_env = Some (mktable ["p"; "a"; "q"; "b"] [[n 1; n 10; n 1; n 5]]).
+Proof. exact overlap_now_clean. Qed.
+Example PEXEC_null_keys_never_match :
+  wf_op_b ex_nulljoin = true /\
+  pexec q_code ex_nulljoin ex_nulljoin_env = Some (mktable ["k"; "a"; "b"] [[n 2; n 3; n 7]; [VNull; VNull; n 5]; [VNull; n 1; VNull]]) /\
+  sem_gen fl_pandas ex_nulljoin ex_nulljoin_env = Some (mktable ["k"; "a"; "b"] [[n 2; n 3; n 7]; [VNull; n 1; VNull]; [VNull; VNull; n 5]]).
+Proof. exact null_keys_never_match. Qed.
 
 (* ---------------------------------------------------------------- the premises are satisfiable *)
 Example PEXEC_premises_satisfiable :
